@@ -1331,11 +1331,11 @@ register("C10", gen=gen_parallel, runner=c10_runner, oracles=[oracle.c10], watch
          nontrivial=lambda si: sum(1 for c in si.calls if c.cmd == "graph") >= 2 and any(c.cmd == "kernel" and int(c.toks[2]) > 1 and "kernel" in c.O for c in si.calls),
          tags=par_tags, sections={"update", "elev", "acc", "acc_overloads_agree", "basins", "outlets", "pits", "kernel", "kvisits", "graph"} | GRAPH_SECTIONS,
          rule="cached raster, cache-less raster, profile and mesh grids; operator families with a single router (plain, flooded, spanning-tree resolved, followed by a multi router); every scenario runs the same 1-3 updates (+ accumulate, basins, kernels) first with sequential routers, then with 2..16 threads; kernels applied sequentially and with thread counts 2..16 x minimum block sizes x minimum level sizes in breadth-first / any / depth-first order; everything under ASan and again under the thread sanitizer; non-trivial = both graphs ran and a multi-threaded kernel returned",
-         lean_modules=["FsProofs.Properties.ShapesC10", "FsProofs.Properties.ClosedMore", "FsProofs.Properties.C10", "FsProofs.Properties.C10Kernel"],
-         theorems=["Fs.Shapes.source_shape_C10", "Fs.Closed.raster_C10_kernel_single", "Fs.Closed.raster_C10_kernel_multi", "Fs.Closed.mesh_C10_kernel_single", "Fs.C10.kernel_par_eq_seq", "Fs.C10.multi_kernel_par_eq_seq", "Fs.C10.single_kernel_par_eq_seq", "Fs.C10.level_nonInterfering", "Fs.C10.level_par_eq_seq", "Fs.C10.kernel_par_exists", "Fs.C10.blockSlices_global",
+         lean_modules=["FsProofs.Properties.ClosedC10", "FsProofs.Properties.ShapesC10", "FsProofs.Properties.ClosedMore", "FsProofs.Properties.C10", "FsProofs.Properties.C10Kernel"],
+         theorems=["Fs.Closed.grid_C10_kernel_resolve", "Fs.Shapes.source_shape_C10", "Fs.Closed.raster_C10_kernel_single", "Fs.Closed.raster_C10_kernel_multi", "Fs.Closed.mesh_C10_kernel_single", "Fs.C10.kernel_par_eq_seq", "Fs.C10.multi_kernel_par_eq_seq", "Fs.C10.single_kernel_par_eq_seq", "Fs.C10.level_nonInterfering", "Fs.C10.level_par_eq_seq", "Fs.C10.kernel_par_exists", "Fs.C10.blockSlices_global",
                    "Fs.C10.par_rows_eq_seq", "Fs.C10.par_tables_eq_seq", "Fs.C10.source_nocache_per_thread", "Fs.Commute.schedules_agree", "Fs.C11.index_in_unique_block", "Fs.C11.no_stuck_state", "Fs.C11.exactly_once"],
          trusted_base=FLOW_TB + ["footprints of the per-node router task (own receiver row, own neighbour buffer) are read off the source by hand; the storage class of the pass-through neighbour buffer is regenerated by translate.py",
                                  "thread interleavings are explored by the OS scheduler under TSan/ASan and by repeated runs, not enumerated"])
-_lvl("C10", "proof",
+_lvl("C10", "proof AFTER THE SINK RESOLVER (ClosedC10.lean): grid_C10_kernel_resolve - the same statement for the graph the spanning-tree resolver returns (its rebuilt breadth-first levels are valid by Fs.C06.single_bfs on the SingleGraph of resolve_c01_singleRouter), on every grid with EnvOk, with non-vacuity instances.",
      "Theorems: kernel_par_eq_seq (model of apply_kernel_par: levels in turn with a barrier, each level split by the executed block arithmetic mkBlocks into one task per worker or run by the caller below min_level_size; a node step reads the node and its receivers and writes the node: whenever the levels are duplicate-free and every receiver lies in a strictly earlier level, EVERY complete interleaving of every level, for every thread count, minimum block size and minimum level size, ends in the memory of the sequential breadth-first sweep), instantiated for the graphs the executed routers build (multi_kernel_par_eq_seq, single_kernel_par_eq_seq, using the BFS theorem of C06), kernel_par_exists (non-vacuity), blockSlices_global (per-level slices = the global-index blocks run_blocks computes); schedules_agree (non-interfering tasks end in the same memory under every interleaving); par_rows_eq_seq / par_tables_eq_seq (the model's multi-threaded router is the sequential per-node function: receivers, distances, weights, donor lists without self entries and hence the traversal orders coincide); source_nocache_per_thread (the pass-through neighbour buffer is per thread in the source, re-decided each run); with the pool theorems of C11 (each index in exactly one block, each block run exactly once, no hang). A node step is one atomic action in the model; races inside getter/func/setter and in the C++ memory model are covered by the TSan runs only.",
      "Lean 4 non-interference induction over interleavings composed with the BFS-level theorem and the block arithmetic + model equality seq/par + translator flag; correspondence under ASan and TSan with sequential-vs-parallel oracle")
